@@ -317,6 +317,94 @@ def gen_body(out):
                coq_str(lit(module_assign(tree, 'MULTIPART_BOUNDARY_PATT').args[0])))
 
 
+def gen_request(out):
+    """request.py: BaseRequest._on_env_changed — which cached views an environ key invalidates;
+    body_mixin.py: the cache key of BodyMixin._body and the shape of BodyMixin.body (cached object, rewound)."""
+    tree, _ = parse('ombott/request_pkg/request.py')
+    fn = find_func(find_class(tree, 'BaseRequest'), '_on_env_changed')
+    args = [a.arg for a in fn.args.args]
+    if len(args) != 3:
+        raise Shape('_on_env_changed: expected (request, key, v)')
+    keyname = args[1]
+    body = [n for n in fn.body if not (isinstance(n, ast.Expr) and isinstance(n.value, ast.Constant))]
+    consts = {}
+
+    def tup(node):
+        # a tuple of names, possibly built from local constant tuples with +
+        if isinstance(node, ast.Name) and node.id in consts:
+            return consts[node.id]
+        if isinstance(node, ast.BinOp) and isinstance(node.op, ast.Add):
+            return tup(node.left) + tup(node.right)
+        return lit(node)
+    # local constant tuples defined before the chain (e.g. a shared list of views) are resolved
+    while (len(body) > 4 and isinstance(body[1], ast.Assign) and len(body[1].targets) == 1
+           and isinstance(body[1].targets[0], ast.Name)):
+        consts[body[1].targets[0].id] = tup(body[1].value)
+        del body[1]
+    # todelete = () ; if/elif chain ; env = request.environ ; [env.pop(PREFIX + key, None) for key in todelete]
+    if not (len(body) == 4 and isinstance(body[0], ast.Assign) and lit(body[0].value) == ()
+            and isinstance(body[1], ast.If) and isinstance(body[2], ast.Assign) and isinstance(body[3], ast.Expr)):
+        raise Shape('_on_env_changed: unexpected statement sequence')
+    var = body[0].targets[0].id
+    table = []
+
+    def walk(node):
+        t = node.test
+        if (isinstance(t, ast.Compare) and len(t.ops) == 1 and isinstance(t.ops[0], ast.Eq)
+                and isinstance(t.left, ast.Name) and t.left.id == keyname):
+            ent = (lit(t.comparators[0]), False)
+        elif (isinstance(t, ast.Call) and isinstance(t.func, ast.Attribute) and t.func.attr == 'startswith'
+              and isinstance(t.func.value, ast.Name) and t.func.value.id == keyname and len(t.args) == 1):
+            ent = (lit(t.args[0]), True)
+        else:
+            raise Shape('_on_env_changed: unexpected test %s' % ast.dump(t)[:80])
+        if not (len(node.body) == 1 and isinstance(node.body[0], ast.Assign)
+                and isinstance(node.body[0].targets[0], ast.Name) and node.body[0].targets[0].id == var):
+            raise Shape('_on_env_changed: branch is not a single assignment to %s' % var)
+        names = tup(node.body[0].value)
+        if not (isinstance(names, tuple) and all(isinstance(x, str) for x in names)):
+            raise Shape('_on_env_changed: branch value is not a tuple of names')
+        table.append((ent, names))
+        if node.orelse:
+            if len(node.orelse) == 1 and isinstance(node.orelse[0], ast.If):
+                walk(node.orelse[0])
+            else:
+                raise Shape('_on_env_changed: else branch')
+    walk(body[1])
+    comp = body[3].value
+    if not (isinstance(comp, ast.ListComp) and len(comp.generators) == 1
+            and isinstance(comp.generators[0].iter, ast.Name) and comp.generators[0].iter.id == var
+            and not comp.generators[0].ifs
+            and isinstance(comp.elt, ast.Call) and isinstance(comp.elt.func, ast.Attribute) and comp.elt.func.attr == 'pop'
+            and isinstance(comp.elt.args[0], ast.BinOp) and isinstance(comp.elt.args[0].op, ast.Add)):
+        raise Shape('_on_env_changed: unexpected invalidation loop')
+    prefix = lit(comp.elt.args[0].left)
+    out.append('(* request.py: BaseRequest._on_env_changed: ((environ key, is-prefix-test), cached views dropped), first match wins *)')
+    out.append('Definition env_changed_table : list ((list N * bool) * list (list N)) := %s.' %
+               coq_list('((%s, %s), %s)' % (coq_str(k), 'true' if pre else 'false', coq_list(coq_str(n) for n in names))
+                        for (k, pre), names in table))
+    out.append('Definition env_cache_prefix : list N := %s.' % coq_str(prefix))
+    # body_mixin.py: @cache_in('environ[ ombott.request.body ]', read_only=True) def _body
+    tree, _ = parse('ombott/request_pkg/body_mixin.py')
+    cls = find_class(tree, 'BodyMixin')
+    fb = find_func(cls, '_body')
+    keys = [lit(d.args[0]) for d in fb.decorator_list
+            if isinstance(d, ast.Call) and isinstance(d.func, ast.Name) and d.func.id == 'cache_in' and d.args]
+    if len(keys) != 1 or not (keys[0].startswith('environ[') and keys[0].endswith(']')):
+        raise Shape('BodyMixin._body: cache_in decorator not found')
+    out.append('(* body_mixin.py: BodyMixin._body is cached under environ[...] *)')
+    out.append('Definition body_cache_key : list N := %s.' % coq_str(keys[0][len('environ['):-1].strip()))
+    # def body(self): ret = self._body; ret.seek(0); return ret
+    bp = find_func(cls, 'body')
+    st = [n for n in bp.body if not (isinstance(n, ast.Expr) and isinstance(n.value, ast.Constant))]
+    ok = (len(st) == 3 and isinstance(st[0], ast.Assign) and isinstance(st[0].value, ast.Attribute)
+          and st[0].value.attr == '_body' and isinstance(st[1], ast.Expr) and isinstance(st[1].value, ast.Call)
+          and isinstance(st[1].value.func, ast.Attribute) and st[1].value.func.attr == 'seek'
+          and [lit(a) for a in st[1].value.args] == [0] and isinstance(st[2], ast.Return))
+    out.append('(* body_mixin.py: BodyMixin.body is "the cached _body, seek(0), return it" *)')
+    out.append('Definition body_property_rewinds_cached : bool := %s.' % ('true' if ok else 'false'))
+
+
 def gen_errtexts(out):
     """the texts of the errors the framework itself creates (status code, body) and of the last-resort page"""
     tree, _ = parse('ombott/ombott.py')
@@ -396,7 +484,7 @@ def gen_errtexts(out):
 def generate():
     out = ['(* GENERATED by tools/gen_constants.py from the current working tree of the repository - do not edit *)',
            'From Coq Require Import List ZArith NArith.', 'Import ListNotations.', '']
-    for g in (gen_response, gen_ombott, gen_helpers, gen_errpage, gen_router, gen_body, gen_errtexts):
+    for g in (gen_response, gen_ombott, gen_helpers, gen_errpage, gen_router, gen_body, gen_request, gen_errtexts):
         g(out)
         out.append('')
     return '\n'.join(out)
